@@ -98,7 +98,7 @@ PROPS = {
         k_thorough=['t_iter_link', 't_it_borrowing', 't_drain', 't_it_owning'],
         assumptions=[A_SUB, A_DOUBLE, A_UNSAFE, A_KBOUND,
                      'snap()/at() heap snapshot: the link structure is immutable while an iterator runs; that the real links satisfy linked() is Kani harness iter_link (bounded)',
-                     'Drain::drop / IntoIter::drop: Verus proves (R12) that they drain every entry not yet yielded and leave the table cleared; Drain::new and the seal reset are raw-pointer code: bounded harnesses q_drain, q_ledger_*, q_forget_*'],
+                     'Drain::drop / IntoIter::drop: Verus proves (R12) that they drain every entry not yet yielded and leave the table cleared; Drain::new: Verus proves that it leaves the cache listing nothing (current_size 0, table cleared) while the cursor covers every entry; the seal reset is raw-pointer code: bounded harnesses q_drain, q_ledger_*, q_forget_*'],
         design='DESIGN.md §5 C12'),
     'C13': dict(
         title='capacity management', level='proof', templates=['l2', 'hbcap'],
